@@ -1035,6 +1035,15 @@ def builtin_table(ctx):
                 if len(rows) >= 10:
                     table = rows
     if not table:
+        # the table as a `const` item (or any other expression) handed to the registration loop
+        for c in f.calls():
+            for a in c['term']['args']:
+                e = strip(expand(f, f.expr_of_operand(a)))
+                if e[0] == 'array' and len(e[1]) >= 10:
+                    rows = [(strip(x)[1][0][1], strip(x)[1][1][1]) for x in e[1] if strip(x)[0] == 'tuple' and len(strip(x)[1]) == 2 and strip(x)[1][0][0] == 'str' and strip(x)[1][1][0] == 'int']
+                    if len(rows) == len(e[1]):
+                        table = rows
+    if not table:
         ctx.fail_closed(['C02'], 'R-TABLE', 'builtins', 'predefined type table not found', loc(f.span))
         return
     # alignment formula: size.max(1)
